@@ -10,7 +10,8 @@
     regenerates (Generated.v: gen_single_schedule_any_year, gen_summary_link_guarded, tax_us_types, tax_ie_types,
     gen_jp_rejects_from_and_to).  Tables (country_methods etc., template_inventory, locale_inventory,
     method_plugins, report_plugins_common, report_plugins_country) are regenerated from the working tree on every run. *)
-From RP2V Require Import Base.Prelude Base.Sorting Model.Types Model.Generated.
+From RP2V Require Import Base.Prelude Base.Sorting Model.Types.
+From RP2V Require Import Model.Generated.
 Open Scope Z_scope.
 
 Definition str_in (s : str) (l : list str) : bool := existsb (str_eqb s) l.
